@@ -17,11 +17,12 @@ import (
 // C16: copied strings decouple results from the input buffer; Clone is independent.
 
 type c16Overwrite struct {
-	Doc  []byte `json:"doc"`
-	ND   bool   `json:"nd"`
-	How  int    `json:"how"`  // 0 zeros, 1 0xff, 2 another valid document, 3 bytes reversed, 4 every byte +1
-	Pad  int    `json:"pad"`  // extra capacity behind the input (the slice handed to Parse is a window into a larger buffer)
-	Lead int    `json:"lead"` // bytes before the window
+	Doc   []byte `json:"doc"`
+	ND    bool   `json:"nd"`
+	How   int    `json:"how"`   // 0 zeros, 1 0xff, 2 another valid document, 3 bytes reversed, 4 every byte +1
+	Pad   int    `json:"pad"`   // extra capacity behind the input (the slice handed to Parse is a window into a larger buffer)
+	Lead  int    `json:"lead"`  // bytes before the window
+	Prior bool   `json:"prior"` // parse into an object that an earlier no-copy Parse returned, with default options
 }
 
 // observeAll renders everything observable through read, marshal and serialize APIs.
@@ -79,7 +80,21 @@ func c16OverwriteCheck(c c16Overwrite) error {
 	}
 	in := backing[c.Lead : c.Lead+len(c.Doc)]
 	copy(in, c.Doc)
-	pj, err := parse(in, true)
+	var pj *simdjson.ParsedJson
+	if c.Prior {
+		// the object was used before, with string copying switched off; this call relies on the default (copy)
+		prev, perr := simdjson.Parse([]byte(`{"earlier":["document","parsed","without","copying"],"k":"v"}`), nil, simdjson.WithCopyStrings(false))
+		if perr != nil {
+			return bugf("%v", perr)
+		}
+		if c.ND {
+			pj, err = simdjson.ParseND(in, prev)
+		} else {
+			pj, err = simdjson.Parse(in, prev)
+		}
+	} else {
+		pj, err = parse(in, true)
+	}
 	if err != nil {
 		return fmt.Errorf("valid document rejected: %v", err)
 	}
@@ -402,7 +417,7 @@ func TestC16_Overwrite(t *testing.T) {
 			ps := []docProfile{profStr, profStr, profMedium, profTiny}
 			doc, _ = render(genDoc(t, ps[rapid.IntRange(0, 3).Draw(t, "p")]), genLayout(t, false))
 		}
-		c := c16Overwrite{Doc: doc, ND: nd, How: rapid.IntRange(0, 4).Draw(t, "how"), Pad: rapid.IntRange(0, 100).Draw(t, "pad"), Lead: rapid.IntRange(0, 70).Draw(t, "lead")}
+		c := c16Overwrite{Doc: doc, ND: nd, How: rapid.IntRange(0, 4).Draw(t, "how"), Pad: rapid.IntRange(0, 100).Draw(t, "pad"), Lead: rapid.IntRange(0, 70).Draw(t, "lead"), Prior: rapid.IntRange(0, 2).Draw(t, "prior") == 0}
 		c16OverwriteRun(t, c)
 		roots, _ := parseModelRoots(doc, nd)
 		e, p := docStringFacts(roots)
